@@ -187,6 +187,8 @@ def scan_trusted(out):
                 continue
             if o[0] == "contract_only":
                 ncon.append(o[1]); continue
+            if o[0] == "trusted":
+                found.append("TRUSTED contract (body not verified, assumed): %s" % o[1]); continue
             found.append("%s @ %s" % (l.strip()[:110], ":".join(str(x) for x in o[:3])))
     if nlem[0]:
         found.append("%d speclib lemma statements assumed in this unit (each proved in unit `speclib`, which every check runs)" % nlem[0])
